@@ -155,8 +155,8 @@ Disambiguator::Disambiguation SyntaxCorrelationDisambiguator::disambiguateStatem
                return Disambiguation::Inconclusive);
 
     auto decltor = SyntaxUtilities::unparenthesizeDeclarator(varDecl->declarators()->value);
-    PSY_ASSERT_2(decltor->kind() == SyntaxKind::IdentifierDeclarator,
-               return Disambiguation::Inconclusive);
+    if (decltor->kind() != SyntaxKind::IdentifierDeclarator)
+        return Disambiguation::Inconclusive;
 
     auto rhsName = decltor->asIdentifierDeclarator()->identifierToken().valueText();
 
